@@ -36,7 +36,7 @@ def base_len(base):
 
 
 def run(plan):
-    s = Session(plan)
+    s = Session(plan, max_iterations=6000)
     w = s.world
     dev = s.dev
     res = Result()
